@@ -218,7 +218,16 @@ pub(crate) fn render(d: &Doc, p: &Present, rng: &mut Rng) -> Value {
             .collect();
         if p.unknown_enums {
             // an entry with an algorithm number nobody knows: the entry is dropped
-            params.insert(rng.below(params.len() + 1), json!({"type": "public-key", "alg": -65000}));
+            // (also identifiers beyond the signed 64-bit range, as a server that keeps them in an
+            // unsigned field writes them)
+            let unknown_alg: Value = match rng.below(6) {
+                0 => json!(18_446_744_073_709_551_609u64),
+                1 => json!(18_446_744_073_709_551_359u64),
+                2 => json!(*rng.pick(&[u64::MAX, 1u64 << 63, (1u64 << 63) - 1, u64::MAX - 7])),
+                3 => json!(65_000),
+                _ => json!(-65000),
+            };
+            params.insert(rng.below(params.len() + 1), json!({"type": "public-key", "alg": unknown_alg}));
         }
         pk.insert("pubKeyCredParams".into(), json!(params));
     }
